@@ -68,6 +68,11 @@ def _case(draw, knob):
     m["trailing_newline"] = trailing
     if not trailing and draw(st.integers(0, 2)) == 0:
         m["trailing_ws"] = draw(st.sampled_from(("    ", "\t", " ")))
+    if draw(st.integers(0, 3)) == 0:
+        # the target's NAME as a string literal, before or after the definition: an export list, a registry
+        nm = project.NAMES[target].split(".")[-1]
+        m["body"].insert(draw(st.integers(0, len(m["body"]))), {"k": "raw", "src": draw(st.sampled_from((
+            "__all__ = [%r, 'helper']" % nm, "REGISTRY = {%r: None}" % nm, "EXPORTED = (%r,)" % nm)))})
     if draw(st.integers(0, 4)) == 0:
         # a bystander with positional-only parameters (and one with every other kind of parameter)
         m["body"].insert(draw(st.integers(0, len(m["body"]))), {"k": "raw", "src": draw(st.sampled_from((
